@@ -38,7 +38,7 @@ def main(argv):
                   "the strategy answers before the next request to the consensus manager is due (no 100 ms blocked-send panic)"]
     c.grep_gate()
     tok, binary = S.prepare(c)
-    proved = tok and c.prove("C08") and c.prove("C08Inv")
+    proved = tok and c.prove("C08") and c.prove("C08Inv") and c.prove("C08Once")
     if binary is None:
         c.finish()
     n, steps = (48, 40) if c.tier == "quick" else (400, 60)
